@@ -453,6 +453,9 @@ Section GFMain.
     rewrite ofnat_add, IH. simpl. unfold two. ring.
   Qed.
 
+  Lemma conj_pow2 n : conj (pow2 o n) = pow2 o n.
+  Proof. induction n as [|n IH]; simpl; [apply sr_conj_1|]. unfold two. rewrite sr_conj_mul, sr_conj_add, sr_conj_1, IH. reflexivity. Qed.
+
   (* GateFidelity.process for every n >= 1, every target matrix U *)
   Theorem gate_fidelity_formula_n n solve (U V : @mat K) req inv :
     1 <= n -> pinv_contract (o:=o) solve -> lunit o (2 ^ n) V -> Permutation req (req_canonical n false) ->
@@ -483,28 +486,28 @@ Section GFMain.
       unfold t. rewrite <- (twirl_total (TR:=TR) n M Hn). apply suml_ext. intros c Hc.
       unfold M. rewrite <- (gf_cyclic (TR:=TR) (2 ^ n)%nat U V (kfold o pauli_mat c)).
       set (u := kfold o pauli_mat c). set (A := mmul o (2 ^ n)%nat (mmul o (2 ^ n)%nat U (madj o u)) (madj o U)).
-      rewrite (suml_combine_seq Rs (mid o)). cbn [fst snd]. rewrite LRs, (isn_length (TR:=TR) n Hn).
-      transitivity (sumn (4 ^ n) (fun j => alpha_n (TR:=TR) n u j *
+      rewrite (suml_combine_seq Rs (mid o)). cbn [fst snd]. rewrite LRs, (isn_length n Hn).
+      transitivity (sumn (4 ^ n) (fun j => alpha_n (o:=o) (ii:=ii) (hh:=hh) n u j *
                       sumn (2 ^ n)%nat (fun p => sumn (2 ^ n)%nat (fun m => Wm (2 ^ n)%nat A V p m * kfold o rho_mat (nth j (isn n) []) p m)))).
       { apply sumn_ext. intros j Hj. rewrite Nat.add_0_l.
-        rewrite (alpha_contract (TR:=TR) n solve u j Hn Hs Hj). f_equal.
+        rewrite (alpha_contract (o:=o) (ii:=ii) (hh:=hh) n solve u j Hn Hs Hj). f_equal.
         rewrite <- gf_lin. apply trace_compat. apply mmul_compat; [apply meq_refl|].
-        apply PRs. rewrite (isn_length (TR:=TR) n Hn). exact Hj. }
+        apply PRs. rewrite (isn_length n Hn). exact Hj. }
       rewrite gf_lin.
       rewrite (sumn_ext _ _ (fun j => sumn (2 ^ n)%nat (fun p => sumn (2 ^ n)%nat (fun m =>
-                 Wm (2 ^ n)%nat A V p m * (kfold o rho_mat (nth j (isn n) []) p m * alpha_n (TR:=TR) n u j))))).
+                 Wm (2 ^ n)%nat A V p m * (kfold o rho_mat (nth j (isn n) []) p m * alpha_n (o:=o) (ii:=ii) (hh:=hh) n u j))))).
       2:{ intros j _. rewrite <- sumn_mul_l. apply sumn_ext; intros p _. rewrite <- sumn_mul_l.
           apply sumn_ext; intros m _. ring. }
-      rewrite (sumn_swap (4 ^ n) (2 ^ n)%nat (fun j p => sumn (2 ^ n)%nat (fun m => Wm (2 ^ n)%nat A V p m * (kfold o rho_mat (nth j (isn n) []) p m * alpha_n (TR:=TR) n u j)))).
+      rewrite (sumn_swap (4 ^ n) (2 ^ n)%nat (fun j p => sumn (2 ^ n)%nat (fun m => Wm (2 ^ n)%nat A V p m * (kfold o rho_mat (nth j (isn n) []) p m * alpha_n (o:=o) (ii:=ii) (hh:=hh) n u j)))).
       apply sumn_ext. intros p Hp'.
-      rewrite (sumn_swap (4 ^ n) (2 ^ n)%nat (fun j m => Wm (2 ^ n)%nat A V p m * (kfold o rho_mat (nth j (isn n) []) p m * alpha_n (TR:=TR) n u j))).
+      rewrite (sumn_swap (4 ^ n) (2 ^ n)%nat (fun j m => Wm (2 ^ n)%nat A V p m * (kfold o rho_mat (nth j (isn n) []) p m * alpha_n (o:=o) (ii:=ii) (hh:=hh) n u j))).
       apply sumn_ext. intros m Hm.
       rewrite sumn_mul_l. f_equal.
       assert (Hx : (p * (2 ^ n)%nat + m < 2 ^ n * 2 ^ n)%nat) by (pose proof (pow2_pos n); nia).
-      pose proof (alpha_n_solves (TR:=TR) n u (p * (2 ^ n)%nat + m)%nat Hn Hx) as HA.
-      unfold vec in HA at 2.  destruct (div_mod_block' (2 ^ n)%nat p m Hm) as [E1 E2]. rewrite E1, E2 in HA.
+      pose proof (alpha_n_solves (o:=o) (ii:=ii) (hh:=hh) n u (p * (2 ^ n)%nat + m)%nat Hn Hx) as HA.
+      unfold vec in HA.  destruct (div_mod_block' (2 ^ n)%nat p m Hm) as [E1 E2]. rewrite E1, E2 in HA.
       rewrite <- HA. apply sumn_ext. intros j Hj.
-      rewrite (basis_vectors_nth (TR:=TR) n _ j Hj Hn). unfold vec. rewrite E1, E2. reflexivity. }
+      rewrite (basis_vectors_nth (o:=o) (ii:=ii) n _ j Hj Hn). unfold vec. rewrite E1, E2. reflexivity. }
     rewrite Et. rewrite ofnat_pow2 in *.
     assert (K2 : kinv o (pow2 o n * pow2 o n * (pow2 o n + one)) = hpow n * hpow n * inv).
     { apply ui_inv. transitivity ((pow2 o n * hpow n) * (pow2 o n * hpow n) * ((pow2 o n + one) * inv)); [ring|].
@@ -532,8 +535,7 @@ Section GFMain.
     assert (K1 : kinv o (pow2 o n * (pow2 o n + one)) = hpow n * inv).
     { apply ui_inv. transitivity ((pow2 o n * hpow n) * ((pow2 o n + one) * inv)); [ring|].
       rewrite (pow2_hpow (TR:=TR)), Hinv. ring. }
-    assert (Cp : conj (pow2 o n) = pow2 o n).
-    { clear. induction n as [|n IH]; simpl; [apply sr_conj_1|]. unfold two. rewrite sr_conj_mul, sr_conj_add, sr_conj_1, IH. reflexivity. }
+    assert (Cp := conj_pow2 n).
     rewrite K1, Cp.
     transitivity ((pow2 o n * hpow n) * ((pow2 o n + one) * inv)); [ring|].
     rewrite (pow2_hpow (TR:=TR)), Hinv. ring.
